@@ -127,6 +127,43 @@ def case_pressure(ctx, family):
     item.update(p2)
     r2 = dense(ctx, item.assemble.vector(field)).reshape(-1, m.dim)
     ctx.equal("pressure_vector_scales_with_updated_pressure", r2 * p, r * p2, tol=1e-10)
+    # the pressure given as keyword of the assembly call replaces the stored one -- also when it is exactly zero
+    p3 = ctx.var("p3", -3, 3)
+    r3 = dense(ctx, item.assemble.vector(field, pressure=p3)).reshape(-1, m.dim)
+    ctx.equal("pressure_keyword_replaces_stored_pressure", r3 * p, r * p3, tol=1e-10)
+    r0 = dense(ctx, item.assemble.vector(field, pressure=0.0)).reshape(-1, m.dim)
+    ctx.equal("zero_pressure_keyword_gives_zero_load", r0, np.zeros(r0.shape, dtype=int), tol=1e-12)
+    r4 = dense(ctx, item.assemble.vector(field)).reshape(-1, m.dim)
+    ctx.equal("stored_pressure_is_the_last_one_given", r4, np.zeros(r4.shape, dtype=int), tol=1e-12)
+
+
+def case_point_load(ctx, apply_on, axisymmetric):
+    """PointLoad on a container of several fields: the load vector has the given values (times 2 pi r for axisymmetric models) at
+    the loaded points of field `apply_on` and zeros everywhere else; its sum is the resultant"""
+    with ctx.concrete():
+        m = tiny_mesh("quad4axi" if axisymmetric else "quad4x2")
+        region = fem.RegionQuad(m)
+        u = fem.FieldAxisymmetric(region, dim=2) if axisymmetric else fem.Field(region, dim=2)
+        field = fem.FieldContainer([u, fem.Field(region, dim=2), fem.Field(region, dim=1)])
+    for f in field.fields:
+        f.values = ctx.const_array(f.values)
+    pts = [1, 3]
+    dim = field[apply_on].dim
+    vals = ctx.array("v", (len(pts), dim), -2, 2)
+    item = fem.PointLoad(field, pts, values=vals, apply_on=apply_on, axisymmetric=axisymmetric)
+    def expected(values):
+        blocks = [np.zeros(f.values.shape, dtype=object if ctx.sym else float) for f in field.fields]
+        for k, p_ in enumerate(pts):
+            scale = 2 * np.pi * float(m.points[p_, 1]) if axisymmetric else 1.0
+            blocks[apply_on][p_] = values[k] * (ctx.const_array(np.array([scale]))[0] if ctx.sym else scale)
+        return np.concatenate([b_.reshape(-1) for b_ in blocks])
+
+    got = dense(ctx, item.assemble.vector(field)).reshape(-1)
+    ctx.equal("point_load_vector", got, expected(vals), tol=1e-12)
+    v2 = ctx.array("w", (len(pts), dim), -2, 2)
+    item.update(v2)
+    got2 = dense(ctx, item.assemble.vector(field)).reshape(-1)
+    ctx.equal("point_load_vector_after_update", got2, expected(v2), tol=1e-12)
 
 
 def _cof(F):
@@ -236,6 +273,9 @@ def cases(tier):
     out.append(("pressure", case_pressure, {"family": "hex8"}))
     for fam in ("quad4x2", "tri3") + (("hex8", "tet4") if thorough else ()):
         out.append(("mass", case_mass, {"family": fam}))
+    for ao in (0, 1, 2):
+        for axi in (False, True):
+            out.append(("point_load", case_point_load, {"apply_on": ao, "axisymmetric": axi}))
     out.append(("mpc", case_mpc, {"which": "mpc"}))
     out.append(("mpc", case_mpc, {"which": "mpc_skip"}))
     out.append(("mpc", case_mpc, {"which": "mpc_centre_in_points"}))
